@@ -10,9 +10,9 @@
 //! commitments, own mod-n scalar adder, own SipHash-2-4) watch every call.
 //!
 //! Process layout: `aggregate(..).validate()` serialises on grin's global secp
-//! mutex, so the parent spawns N single-threaded worker processes of itself
-//! (`--c12-worker i n`), each owning a disjoint family of (shard, round)
-//! pools; workers print one JSON document that the parent merges into the
+//! mutex, so the parent spawns N worker processes of itself
+//! (`Run::spawn_workers`, `--worker i n`), each owning a disjoint family of
+//! (shard, round) pools; what they record is merged into the parent's
 //! evidence. Under `--san` a small workload runs in-process.
 
 use grin_core::core::hash::{Hash, Hashed};
@@ -31,7 +31,7 @@ use grin_util::secp::key::SecretKey;
 use serde_json::{json, Value};
 use std::collections::{BTreeMap, HashMap, HashSet};
 use std::time::{Duration, Instant};
-use vcommon::ctx::{parse_cli, Run, Tier};
+use vcommon::ctx::{Run, Tier};
 use vcommon::monitor;
 use vcommon::prng::{fnv64, splitmix64, Prng};
 use vcommon::world::{fee_fields, height_locked, init_globals, init_thread, nrd, Coin, World};
@@ -236,42 +236,6 @@ impl Acc {
 		if self.samples.iter().filter(|s| s["kind"].as_str() == Some(kind.as_str())).count() < 2 {
 			self.samples.push(v);
 		}
-	}
-	fn to_json(&self) -> Value {
-		json!({
-			"evals": self.evals.iter().map(|(k, v)| json!([k, v.0, v.1])).collect::<Vec<_>>(),
-			"counters": self.counters,
-			"violations": self.violations.iter().map(|(s, w, r)| json!([s, w, r])).collect::<Vec<_>>(),
-			"samples": self.samples,
-			"inconclusive": self.inconclusive,
-		})
-	}
-	fn merge_json(&mut self, v: &Value) -> Result<(), String> {
-		let bad = || "malformed worker output".to_string();
-		for e in v.get("evals").and_then(|x| x.as_array()).ok_or_else(bad)? {
-			let sig = e[0].as_str().ok_or_else(bad)?;
-			self.eval(sig, e[2].as_bool().unwrap_or(false), e[1].as_u64().unwrap_or(0));
-		}
-		for (k, n) in v.get("counters").and_then(|x| x.as_object()).ok_or_else(bad)? {
-			self.count(k, n.as_u64().unwrap_or(0));
-		}
-		for e in v.get("violations").and_then(|x| x.as_array()).ok_or_else(bad)? {
-			self.violation(
-				e[0].as_str().unwrap_or("?").to_string(),
-				e[1].as_str().unwrap_or("?").to_string(),
-				e[2].clone(),
-			);
-		}
-		for s in v.get("samples").and_then(|x| x.as_array()).ok_or_else(bad)? {
-			self.samples.push(s.clone());
-		}
-		for s in v.get("inconclusive").and_then(|x| x.as_array()).ok_or_else(bad)? {
-			self.inconclusive(s.as_str().unwrap_or("?").to_string());
-		}
-		Ok(())
-	}
-	fn c(&self, name: &str) -> u64 {
-		*self.counters.get(name).unwrap_or(&0)
 	}
 }
 
@@ -1893,36 +1857,53 @@ fn self_test() -> Result<(), String> {
 
 // ------------------------------------------------------------------ main
 
-fn arg_after(args: &[String], name: &str) -> Option<String> {
-	args.iter().position(|a| a == name).and_then(|i| args.get(i + 1).cloned())
-}
-
-fn worker_main(args: &[String], seed: u64) -> ! {
-	let shard: u64 = arg_after(args, "--c12-worker").and_then(|s| s.parse().ok()).unwrap_or(0);
-	let cfg = Cfg {
-		seed,
-		budget_s: arg_after(args, "--budget").and_then(|s| s.parse().ok()).unwrap_or(10.0),
-		max_rounds: arg_after(args, "--rounds").and_then(|s| s.parse().ok()).unwrap_or(1),
-		cases_per_round: arg_after(args, "--cases").and_then(|s| s.parse().ok()).unwrap_or(100),
-		round_cap_s: arg_after(args, "--round-cap").and_then(|s| s.parse().ok()).unwrap_or(10.0),
-		build_threads: arg_after(args, "--build-threads").and_then(|s| s.parse().ok()).unwrap_or(2),
-	};
-	let mut acc = Acc::default();
-	run_shard(&cfg, shard, &mut acc);
-	println!("C12-WORKER-RESULT {}", acc.to_json());
-	std::process::exit(0)
+/// Move everything a shard recorded into the run context.
+fn flush(run: &Run, acc: &Acc) {
+	let mut total_evals = 0u64;
+	let mut distinct = vec![];
+	for (sig, (n, nontrivial)) in &acc.evals {
+		total_evals += n;
+		if *nontrivial {
+			distinct.push(fnv64(sig.as_bytes()));
+		}
+	}
+	run.eval_bulk(total_evals, distinct);
+	for (k, v) in &acc.counters {
+		run.count(k, *v);
+	}
+	for s in &acc.samples {
+		run.sample(s.clone());
+	}
+	for i in &acc.inconclusive {
+		run.inconclusive(i);
+	}
+	for (sig, what, replay) in &acc.violations {
+		run.violation(sig, what, replay.clone());
+	}
 }
 
 fn main() {
 	init_globals(true);
-	let cli = parse_cli();
-	if cli.rest.iter().any(|a| a == "--c12-worker") {
-		worker_main(&cli.rest, cli.seed);
-	}
-	let run = Run::new("C12", "exploration", &cli);
-	let san = cli.rest.iter().any(|a| a == "--san");
+	let run = Run::from_env("C12", "exploration");
 	let mut acc = Acc::default();
 
+	// ---- worker process: one shard, results go to the parent through stdout
+	if let Some((shard, _n)) = run.worker_shard() {
+		let num = |name: &str, d: f64| -> f64 { run.arg_value(name).and_then(|s| s.parse().ok()).unwrap_or(d) };
+		let cfg = Cfg {
+			seed: run.seed,
+			budget_s: num("--budget", 10.0),
+			max_rounds: num("--rounds", 1.0) as u64,
+			cases_per_round: num("--cases", 100.0) as u64,
+			round_cap_s: num("--round-cap", 10.0),
+			build_threads: num("--build-threads", 2.0) as usize,
+		};
+		run_shard(&cfg, shard as u64, &mut acc);
+		flush(&run, &acc);
+		run.finish_worker();
+	}
+
+	let san = run.args.iter().any(|a| a == "--san");
 	run.set_rule(
 		"Per (shard, round): a pool of 39 valid base transactions with known openings is built from the seed \
 		 (10 independent singles with 1-3 inputs/outputs, a burn without outputs, 3 two-chains, a full spend, a three-chain, \
@@ -1936,9 +1917,11 @@ fn main() {
 		 1000-1999 with zero or random accumulated offset) is converted to a compact block with a fresh nonce for each of \
 		 original / permuted / partially aggregated / fully aggregated / base-transaction groupings, 1/3 through the wire format, \
 		 and hydrated back; kernel short ids are compared with an own SipHash-2-4. A case is non-trivial when it has >= 2 operands; \
-		 distinct = (operand count, base count, cut-through shape p<pairs>d<depth>[j][f], kernel-variant multiset, offset class, \
+		 distinct = (operand count, base count, cut-through shape p<pairs>d<depth>[j][f][m], kernel-variant multiset, offset class, \
 		 multi-kernel operands, v2 inputs, permutation class) for aggregates, (operand count, subset size, remainder/subset offset \
-		 class, kernel variants) for de-aggregations and (operand count, grouping, shape, kernel variants, offset class) for hydrations.",
+		 class, kernel variants) for de-aggregations and (operand count, grouping, shape, kernel variants, offset class) for hydrations. \
+		 Work is sharded over worker processes (validation serialises on the process-global secp mutex); every case is a function \
+		 of (seed, shard, round, case index), time caps only shorten the prefix of cases that is executed.",
 	);
 	run.assume("Trusted base: secp256k1 (commitments, signatures, bulletproofs), blake2b hashing (Hashed::hash), serialization of outputs/kernels used to compare values.");
 	run.assume("CompactBlock::from draws its nonce from thread_rng: nonces are fresh per conversion and recorded in replay data, not derived from the seed.");
@@ -1970,6 +1953,7 @@ fn main() {
 			}
 		}
 		println!("[C12] replayed shard {} round {} case {}", shard, round, c["case"]);
+		flush(&run, &acc);
 	} else if san {
 		let cfg = Cfg {
 			seed: run.seed,
@@ -1980,127 +1964,37 @@ fn main() {
 			build_threads: 8,
 		};
 		run_shard(&cfg, 0, &mut acc);
+		flush(&run, &acc);
 	} else {
 		let cores = std::thread::available_parallelism().map(|n| n.get()).unwrap_or(4);
-		let shards = cores.saturating_sub(2).clamp(2, 14) as u64;
+		let shards = cores.saturating_sub(2).clamp(2, 14);
 		let budget_s: f64 = run.tier.pick(52.0, 440.0);
 		let max_rounds: u64 = run.tier.pick(8, 60);
-		let exe = std::env::current_exe().expect("current exe");
-		let mut kids = vec![];
-		for s in 0..shards {
-			let child = std::process::Command::new(&exe)
-				.args([
-					"--tier",
-					run.tier.name(),
-					"--seed",
-					&run.seed.to_string(),
-					"--c12-worker",
-					&s.to_string(),
-					"--budget",
-					&budget_s.to_string(),
-					"--rounds",
-					&max_rounds.to_string(),
-					"--cases",
-					"400",
-					"--round-cap",
-					"9.5",
-					"--build-threads",
-					"2",
-				])
-				.stdout(std::process::Stdio::piped())
-				.stderr(std::process::Stdio::inherit())
-				.spawn();
-			match child {
-				Ok(c) => kids.push((s, c)),
-				Err(e) => run.inconclusive(&format!("cannot spawn worker {}: {}", s, e)),
-			}
-		}
-		// hard deadline: a worker that is still running long after its budget is killed (-> inconclusive)
-		let pids: Vec<u32> = kids.iter().map(|(_, c)| c.id()).collect();
-		let done = std::sync::Arc::new(std::sync::atomic::AtomicBool::new(false));
-		{
-			let done = done.clone();
-			let hard = Duration::from_secs_f64(budget_s + run.tier.pick(25.0, 90.0));
-			std::thread::spawn(move || {
-				let t = Instant::now();
-				while t.elapsed() < hard {
-					std::thread::sleep(Duration::from_millis(200));
-					if done.load(std::sync::atomic::Ordering::SeqCst) {
-						return;
-					}
-				}
-				for p in pids {
-					unsafe {
-						libc::kill(p as i32, libc::SIGKILL);
-					}
-				}
-			});
-		}
-		// drain every worker's stdout concurrently
-		let handles: Vec<_> = kids
-			.into_iter()
-			.map(|(s, c)| (s, std::thread::spawn(move || c.wait_with_output())))
-			.collect();
-		let mut ok_workers = 0u64;
-		for (s, h) in handles {
-			match h.join() {
-				Ok(Ok(out)) => {
-					let text = String::from_utf8_lossy(&out.stdout);
-					let line = text.lines().find(|l| l.starts_with("C12-WORKER-RESULT "));
-					match (out.status.success(), line) {
-						(true, Some(l)) => {
-							match serde_json::from_str::<Value>(&l["C12-WORKER-RESULT ".len()..]) {
-								Ok(v) => match acc.merge_json(&v) {
-									Ok(()) => ok_workers += 1,
-									Err(e) => run.inconclusive(&format!("worker {}: {}", s, e)),
-								},
-								Err(e) => run.inconclusive(&format!("worker {}: unparsable result: {}", s, e)),
-							}
-						}
-						_ => run.inconclusive(&format!("worker {} ended with {:?} without a result", s, out.status)),
-					}
-				}
-				_ => run.inconclusive(&format!("worker {}: wait failed", s)),
-			}
-		}
-		done.store(true, std::sync::atomic::Ordering::SeqCst);
-		acc.count("workers_completed", ok_workers);
-		run.require("worker processes completed", ok_workers, shards);
-	}
-
-	// ---- merge into the run
-	let mut total_evals = 0u64;
-	let mut distinct = vec![];
-	for (sig, (n, nontrivial)) in &acc.evals {
-		total_evals += n;
-		if *nontrivial {
-			distinct.push(fnv64(sig.as_bytes()));
-		}
-	}
-	run.eval_bulk(total_evals, distinct);
-	for (k, v) in &acc.counters {
-		run.count(k, *v);
-	}
-	// samples: prefer variety (aggregate and hydrate kinds)
-	let mut kinds_seen: HashMap<String, usize> = HashMap::new();
-	for s in &acc.samples {
-		let k = s["kind"].as_str().unwrap_or("?").to_string();
-		let n = kinds_seen.entry(k).or_insert(0);
-		if *n < 2 {
-			run.sample(s.clone());
-			*n += 1;
-		}
-	}
-	for i in &acc.inconclusive {
-		run.inconclusive(i);
-	}
-	for (sig, what, replay) in &acc.violations {
-		run.violation(sig, what, replay.clone());
+		let extra: Vec<String> = [
+			"--budget",
+			&budget_s.to_string(),
+			"--rounds",
+			&max_rounds.to_string(),
+			"--cases",
+			"400",
+			"--round-cap",
+			"9.5",
+			"--build-threads",
+			"2",
+		]
+		.iter()
+		.map(|s| s.to_string())
+		.collect();
+		let timeout = budget_s as u64 + run.tier.pick(25, 90);
+		let results = run.spawn_workers(shards, &extra, timeout);
+		let ok = (results.len() as u64).saturating_sub(run.counter("workers_failed"));
+		run.count("workers_completed", ok);
+		run.require("worker processes completed", ok, shards as u64);
 	}
 	run.extra("generation_wall_s", json!(t_start.elapsed().as_secs_f64()));
 
 	if run.replay.is_none() {
-		// minimum observations; sanitizer runs use ~1/10 of quick
+		// minimum observations; sanitizer runs use a small workload
 		let scale = |q: u64, t: u64| -> u64 {
 			if san {
 				(q / 60).max(1)
@@ -2111,20 +2005,21 @@ fn main() {
 				}
 			}
 		};
-		run.require("aggregates checked", acc.c("aggregates_checked"), scale(600, 4800));
-		run.require("aggregates with cut-through pairs > 0", acc.c("aggregates_with_cut_through"), scale(220, 1760));
-		run.require("aggregates with chain depth >= 3", acc.c("shape_chain_depth_ge3"), scale(70, 560));
-		run.require("aggregates with a diamond (fork and join)", acc.c("shape_diamond_join_and_fork"), scale(50, 400));
-		run.require("aggregates with multi-kernel operands", acc.c("aggregates_with_multi_kernel_operands"), scale(170, 1360));
-		run.require("aggregates with HeightLocked kernels", acc.c("aggregates_with_height_locked_kernel"), scale(350, 2800));
-		run.require("aggregates with NRD kernels", acc.c("aggregates_with_nrd_kernel"), scale(350, 2800));
-		run.require("aggregates of all-zero offsets", acc.c("offset_class_allzero"), scale(10, 80));
-		run.require("aggregates of mixed zero/non-zero offsets", acc.c("offset_class_mixed"), scale(350, 2800));
-		run.require("permutations checked", acc.c("permutations_checked"), scale(12000, 96000));
-		run.require("groupings checked", acc.c("groupings_checked"), scale(2500, 20000));
-		run.require("deaggregations checked", acc.c("deaggregations_checked"), scale(650, 5200));
-		run.require("hydrations checked", acc.c("hydrations_checked"), scale(1000, 8000));
-		run.require("kernel short ids checked", acc.c("short_ids_checked"), scale(9000, 72000));
+		let c = |name: &str| run.counter(name);
+		run.require("aggregates checked", c("aggregates_checked"), scale(600, 4800));
+		run.require("aggregates with cut-through pairs > 0", c("aggregates_with_cut_through"), scale(220, 1760));
+		run.require("aggregates with chain depth >= 3", c("shape_chain_depth_ge3"), scale(70, 560));
+		run.require("aggregates with a diamond (fork and join)", c("shape_diamond_join_and_fork"), scale(50, 400));
+		run.require("aggregates with multi-kernel operands", c("aggregates_with_multi_kernel_operands"), scale(170, 1360));
+		run.require("aggregates with HeightLocked kernels", c("aggregates_with_height_locked_kernel"), scale(350, 2800));
+		run.require("aggregates with NRD kernels", c("aggregates_with_nrd_kernel"), scale(350, 2800));
+		run.require("aggregates of all-zero offsets", c("offset_class_allzero"), scale(10, 80));
+		run.require("aggregates of mixed zero/non-zero offsets", c("offset_class_mixed"), scale(350, 2800));
+		run.require("permutations checked", c("permutations_checked"), scale(12000, 96000));
+		run.require("groupings checked", c("groupings_checked"), scale(2500, 20000));
+		run.require("deaggregations checked", c("deaggregations_checked"), scale(650, 5200));
+		run.require("hydrations checked", c("hydrations_checked"), scale(1000, 8000));
+		run.require("kernel short ids checked", c("short_ids_checked"), scale(9000, 72000));
 	}
 	run.finish();
 }
